@@ -92,14 +92,16 @@ func sqlExtraPhases(eval func(w *fw.W, s, aux string), heavy bool) []fw.Phase {
 			Run: func(w *fw.W) {
 				w.Trie([]string{"1 ", ") ", "( ", "not ", "in ", "like ", "= ", "+ ", "foo ", "select "}, 4, w.Pick(6, 7))
 			}, Eval: eval},
-		{Name: "byte-sweep", Space: "every byte value 0..255 at each syntactic position of 28 canonical statements", Share: 1,
-			Run: func(w *fw.W) { list(w, alpha.ByteSweepSQL()) }, Eval: eval},
+		{Name: "byte-sweep", Space: "every byte value 0..255 at each syntactic position of 43 canonical statements; every ordered pair of 9 blank / control bytes at 13 of them", Share: 1,
+			Run: func(w *fw.W) { list(w, append(alpha.ByteSweepSQL(), alpha.PairSweepSQL()...)) }, Eval: eval},
 		{Name: "count-sweep", Space: "4 attacks preceded by k copies of each of 12 units (list items, parentheses, blanks, qualified names, the three comment forms, words, strings) for every k in 0..300; a MySQL-only attack behind k '--x' / '#' comments", Share: 1,
 			Run: func(w *fw.W) { list(w, alpha.CountSweepSQL()) }, Eval: eval},
 		{Name: "keyword-sweep", Space: "every non-fingerprint key of the current keyword table (upper, lower, with U+017F / U+0131 / U+212A for its first s / i / k) in 19 statement positions (alone, called, after ';', after UNION SELECT, before '.', before a back-tick, between operands, doubled)", Share: 1,
 			Run: func(w *fw.W) { list(w, keywordSweep()) }, Eval: eval},
 		{Name: "separator-sweep", Space: "every sequence of <=3 core tokens and 8 canonical attacks with all blanks replaced by each other separator (TAB LF VT FF CR 0xA0 NUL and an inline comment)", Share: 1,
 			Run: func(w *fw.W) { list(w, separatorSweep()) }, Eval: eval},
+		{Name: "glued-tokens", Space: "22 literal / number / closing forms immediately followed (no blank) by each of 17 keywords / letters, in 5 statement positions", Share: 1,
+			Run: func(w *fw.W) { list(w, gluedTokens()) }, Eval: eval},
 		deltaSQLPhase(eval),
 	}
 }
@@ -117,8 +119,8 @@ func htmlExtraPhases(eval func(w *fw.W, s, aux string), heavy bool) []fw.Phase {
 			Run: func(w *fw.W) { prefixed(w, alpha.HTMLPrefixes, alpha.H2, d(w, 2, 3)) }, Eval: eval},
 		{Name: "length-boundaries", Space: "names NUL-padded with 0..64 NULs, names of every length 1..70 with a rune that grows when upper-cased, names/values around 64/128/256 bytes, URL values with 0..1000 junk bytes / zero digits before the scheme", Share: 1,
 			Run: func(w *fw.W) { list(w, lenFamilyHTML()) }, Eval: eval},
-		{Name: "byte-sweep", Space: "every byte value 0..255 at each syntactic position of 25 canonical vectors", Share: 1,
-			Run: func(w *fw.W) { list(w, alpha.ByteSweepHTML()) }, Eval: eval},
+		{Name: "byte-sweep", Space: "every byte value 0..255 at each syntactic position of 25 canonical vectors; every ordered pair of 9 blank / control bytes at 17 of them", Share: 1,
+			Run: func(w *fw.W) { list(w, append(alpha.ByteSweepHTML(), alpha.PairSweepHTML()...)) }, Eval: eval},
 		{Name: "count-sweep", Space: "5 vectors preceded by k copies of each of 5 units for every k in 0..300, in 3 breakout forms", Share: 1,
 			Run: func(w *fw.W) { list(w, alpha.CountSweepHTML()) }, Eval: eval},
 		{Name: "attribute-forms", Space: "12 attribute names of every class x 8 values x every blank / NUL before and after the value inside 3 quotings; every ordered pair of (name, value) x (name, value) in one tag, in two tag forms", Share: 1,
